@@ -19,6 +19,9 @@ _I = None
 _REG = None
 
 
+from pyvc.contract import Contract as _Contract
+
+
 def get_interp():
     global _I, _REG
     if _I is None:
@@ -107,15 +110,32 @@ def main(argv=None):
     # external validations run concurrently as subprocesses
     vprocs = registry.start_validations(prop, tier, seed)
     results = []
-    if tasks:
-        ctxm = mp.get_context("fork")
-        with ctxm.Pool(min(args.jobs, len(tasks))) as pool:
-            for r in pool.imap_unordered(_worker, tasks, chunksize=1):
+    done = set()
+    verifiable = lambda c: type(c).setup is not _Contract.setup and type(c).post is not _Contract.post
+    wave = tasks
+    dep_names = set()
+    ctxm = mp.get_context("fork")
+    while wave:
+        with ctxm.Pool(min(args.jobs, len(wave))) as pool:
+            for r in pool.imap_unordered(_worker, wave, chunksize=1):
                 results.append(r)
                 if args.v:
                     bad = [o for o in r["obligations"] if o["verdict"] != "proved"]
                     print(f"  {r['contract'].split('.', 2)[-1]} {r['case']}: paths={r['paths']} obligations={len(r['obligations'])} "
                           f"not-proved={len(bad)} wall={r['wall']} {r['error'] or ''}", flush=True)
+        done |= {t[0] for t in wave}
+        # modular verification: the property also depends on the contracts its functions were checked against;
+        # their own obligations are part of this check (transitively), so a change inside a callee is reported here too
+        wave = []
+        if not args.only:
+            for r in results:
+                for nm in r["used_contracts"]:
+                    c = reg.get(nm)
+                    if c is not None and nm not in done and nm not in dep_names and verifiable(c):
+                        dep_names.add(nm)
+                        for i in range(len(c.cases)):
+                            wave.append((nm, i, timeout_ms))
+    contracts = contracts + [reg[n] for n in sorted(dep_names)]
     # lemma libraries and contract-level lemmas (no code involved)
     lemma_recs = registry.prove_lemmas(prop, timeout_ms)
     validations = registry.finish_validations(vprocs)
@@ -271,7 +291,7 @@ def report(prop, tier, seed, t0, contracts, results, lemma_recs, validations, sp
     for cname, rs in sorted(by_contract.items()):
         r0 = rs[0]
         c = reg[cname]
-        functions.append({"function": cname, "file": (r0.get("file") or "").replace(os.environ.get("PYVC_REPO", "/repo") + "/", ""),
+        functions.append({"function": cname, "role": "serves the property" if prop in c.prop else "callee contract the property's functions are checked against (verified here too)", "file": (r0.get("file") or "").replace(os.environ.get("PYVC_REPO", "/repo") + "/", ""),
                           "line": r0.get("lineno"), "source_sha256": r0.get("source_sha256"),
                           "cases": len(rs), "paths": sum(r["paths"] for r in rs),
                           "obligations": sum(len(r["obligations"]) for r in rs),
